@@ -148,7 +148,11 @@ impl Service for Svc {
                 MethodReply::Single(Some(Rep { v: u32::MAX }))
             }
             M::Sub { t, n, p } => {
-                self.log.borrow_mut().push(format!("{}:s{}{}", t / 1000, n, if *p == 0 { String::new() } else { format!("p{p}") }));
+                if ow {
+                    self.log.borrow_mut().push(format!("{}:S{}", t / 1000, n));
+                } else {
+                    self.log.borrow_mut().push(format!("{}:s{}{}", t / 1000, n, if *p == 0 { String::new() } else { format!("p{p}") }));
+                }
                 // flag patterns: 0 = conventional (true … true, false), 1 = all true, 2 = alternating starting with
                 // true, 3 = no flag at all (items after a non-continuing one are still the service's items)
                 MethodReply::Multi(CStream {
@@ -200,6 +204,9 @@ pub enum Desc {
     Sub(u32, u32),
     /// a call the service answers with a reply that cannot be serialized (oneway or not)
     Unser(bool),
+    /// a call flagged oneway that the service answers with a reply *stream* of n items: whatever a service answers to a
+    /// oneway call, nothing is sent - for the model it is a oneway call like `E<n>` (and is logged as such)
+    SubOneway(u32),
     Garbage(u8),
 }
 
@@ -210,6 +217,7 @@ impl Desc {
             Desc::Fail(ow) => (if *ow { "F" } else { "f" }).to_string(),
             Desc::Sub(n, p) => if *p == 0 { format!("s{n}") } else { format!("s{n}p{p}") },
             Desc::Unser(ow) => (if *ow { "U" } else { "u" }).to_string(),
+            Desc::SubOneway(n) => format!("S{n}"),
             Desc::Garbage(_) => "g".into(),
         }
     }
@@ -219,6 +227,7 @@ impl Desc {
             Desc::Echo(v, ow) => format!("{{\"method\":\"x.Echo\",\"parameters\":{{\"t\":{t},\"v\":{v}}}{}}}", if *ow { ",\"oneway\":true" } else { "" }),
             Desc::Fail(ow) => format!("{{\"parameters\":{{\"t\":{t}}},\"method\":\"x.Fail\"{}}}", if *ow { ",\"oneway\":true" } else { "" }),
             Desc::Sub(n, p) => format!("{{\"method\":\"x.Sub\",\"more\":true,\"parameters\":{{\"t\":{t},\"n\":{n},\"p\":{p}}}}}"),
+            Desc::SubOneway(n) => format!("{{\"method\":\"x.Sub\",\"oneway\":true,\"parameters\":{{\"t\":{t},\"n\":{n},\"p\":0}}}}"),
             Desc::Unser(ow) => format!("{{\"method\":\"x.Bad\",\"parameters\":{{\"t\":{t}}}{}}}", if *ow { ",\"oneway\":true" } else { "" }),
             Desc::Garbage(k) if k % 8 == 5 => {
                 // long run of non-UTF-8 bytes (never NUL)
@@ -448,6 +457,7 @@ fn gen_descs(rng: &mut Rng, maxcalls: usize, allow_garbage: bool, allow_sub: boo
     (0..n)
         .map(|_| match rng.below(12) {
             0..=4 => Desc::Echo(rng.below(1000) as u32, false),
+            5 if allow_sub && rng.chance(1, 3) => Desc::SubOneway(rng.below(4) as u32),
             5 => Desc::Echo(rng.below(1000) as u32, true),
             6 => Desc::Fail(false),
             7 => Desc::Fail(rng.chance(1, 2)),
